@@ -12,6 +12,12 @@ use crate::types::{
 use std::collections::HashMap;
 use std::io::Read;
 
+/// Key bit set for disposable pictures in `H263State::reference_states`.
+///
+/// Temporal references are at most 10 bits wide, so this bit is never part of
+/// one.
+const DISPOSABLE_PICTURE_KEY: u16 = 0x8000;
+
 /// All state necessary to decode a successive series of H.263 pictures.
 pub struct H263State {
     /// External decoder options enabled on this decoder.
@@ -470,16 +476,26 @@ impl H263State {
             }
 
             let this_tr = next_decoded_picture.as_header().temporal_reference;
-            self.last_picture = Some(this_tr);
-            if !next_decoded_picture
+            let is_disposable = next_decoded_picture
                 .as_header()
                 .picture_type
-                .is_disposable()
-            {
-                self.reference_picture = Some(this_tr);
+                .is_disposable();
+
+            // Disposable pictures are stored under a key that no temporal
+            // reference can take, so that a disposable picture carrying the
+            // reference picture's temporal reference never replaces it.
+            let this_key = if is_disposable {
+                this_tr | DISPOSABLE_PICTURE_KEY
+            } else {
+                this_tr
+            };
+
+            self.last_picture = Some(this_key);
+            if !is_disposable {
+                self.reference_picture = Some(this_key);
             }
 
-            self.reference_states.insert(this_tr, next_decoded_picture);
+            self.reference_states.insert(this_key, next_decoded_picture);
             self.cleanup_buffers();
 
             reader.commit();
